@@ -75,7 +75,7 @@ def tree_key(config):
     h.update(_driver_hash().encode())
     h.update(_hash_tree(REPO, REPO_TRACKED).encode())
     if c.get("harness"):
-        h.update(_hash_tree(c["dir"], ["src", "Cargo.toml"]).encode())
+        h.update(_hash_tree(c["dir"], ["src", "Cargo.toml.in"]).encode())
     h.update(repr(sorted(c["args"])).encode())
     h.update(c["rustflags"].encode())
     return h.hexdigest()[:24]
@@ -99,9 +99,16 @@ def extract(config, verbose=False):
         if os.path.exists(out):
             return out
         t0 = time.time()
+        cargo_dir = c["dir"]
         if c.get("harness"):
-            # harness crates path-depend on /repo: they need /repo's lock file
-            shutil.copyfile(os.path.join(REPO, "Cargo.lock"), os.path.join(c["dir"], "Cargo.lock"))
+            # harness crates path-depend on the tree under test: instantiate them in a build dir with that
+            # path filled in, and give them that tree's lock file
+            cargo_dir = os.path.join(CACHE, "harness-" + config + suffix)
+            shutil.rmtree(cargo_dir, ignore_errors=True)
+            shutil.copytree(os.path.join(c["dir"], "src"), os.path.join(cargo_dir, "src"))
+            toml = open(os.path.join(c["dir"], "Cargo.toml.in")).read().replace("@REPO@", REPO)
+            open(os.path.join(cargo_dir, "Cargo.toml"), "w").write(toml)
+            shutil.copyfile(os.path.join(REPO, "Cargo.lock"), os.path.join(cargo_dir, "Cargo.lock"))
         target = os.path.join(CACHE, "target-" + config + suffix)
         os.makedirs(target, exist_ok=True)
         # cargo's freshness cache would skip the wrapper: drop the dumped crates' fingerprints
@@ -127,7 +134,7 @@ def extract(config, verbose=False):
         )
         env.pop("RUSTC_WRAPPER", None)
         cmd = ["cargo", "+nightly", "check", "--offline"] + c["args"]
-        r = subprocess.run(cmd, cwd=c["dir"], env=env, stdout=subprocess.PIPE, stderr=subprocess.STDOUT, text=True)
+        r = subprocess.run(cmd, cwd=cargo_dir, env=env, stdout=subprocess.PIPE, stderr=subprocess.STDOUT, text=True)
         files = glob.glob(os.path.join(tmpout, "*.json"))
         if r.returncode != 0 or not files:
             shutil.rmtree(tmpout, ignore_errors=True)
@@ -139,8 +146,11 @@ def extract(config, verbose=False):
         # keep the cache small: drop older fact files of this config
         olds = sorted(glob.glob(os.path.join(CACHE, "facts", config, "*.json")), key=os.path.getmtime)
         for o in olds[:-12]:
-            if o != out:
-                os.remove(o)
+            if o != out and time.time() - os.path.getmtime(o) > 900:
+                try:
+                    os.remove(o)
+                except OSError:
+                    pass
         if verbose:
             print("[facts] %s extracted in %.1fs -> %s" % (config, time.time() - t0, out))
         return out
